@@ -36,6 +36,7 @@ type Prog struct {
 	constGlobals map[string]bool // globals never written outside init
 	loopCount map[*ssa.Function]int
 	autoInv   map[string]map[string]bool
+	freshKeyMemo map[*ssa.Function]map[string]bool
 	knownHeaps map[string]*HeapInfo
 	houdiniDone map[*ssa.Function]bool
 	callC     map[*ssa.Function]*Contract
@@ -572,6 +573,12 @@ func (P *Prog) staticCallees(cc *ssa.CallCommon, out map[string]bool) []*ssa.Fun
 		P.contractKeys(c, out)
 		return nil
 	}
+	if pv, ok := cc.Value.(*ssa.Parameter); ok && pv.Parent() != nil {
+		if c, ok := P.db.Funcs["paramfunc:"+funcKey(pv.Parent())+"."+pv.Name()]; ok {
+			P.contractKeys(c, out)
+			return nil
+		}
+	}
 	// a function value loaded from a struct field that has an (assumed) contract
 	if u, ok := cc.Value.(*ssa.UnOp); ok {
 		if fa, ok := u.X.(*ssa.FieldAddr); ok {
@@ -767,4 +774,44 @@ func (P *Prog) expandWholeMods() {
 		}
 		c.Modifies = append(c.Modifies, extra...)
 	}
+}
+
+// freshKeys: heaps the function (or its static in-repo callees) writes only at objects it
+// allocated itself. Callers do not see these writes on pre-existing objects, but the fields
+// of the fresh objects a callee hands back are not the entry values of those heaps.
+func (P *Prog) freshKeys(fn *ssa.Function) map[string]bool {
+	if P.freshKeyMemo == nil {
+		P.freshKeyMemo = map[*ssa.Function]map[string]bool{}
+	}
+	if m, ok := P.freshKeyMemo[fn]; ok {
+		return m
+	}
+	out := map[string]bool{}
+	P.freshKeyMemo[fn] = out
+	if fn.Blocks == nil || !P.inRepo[fn] {
+		return out
+	}
+	for _, b := range fn.Blocks {
+		for _, in := range b.Instrs {
+			switch x := in.(type) {
+			case *ssa.Store:
+				if rootAlloc(x.Addr) {
+					addrKeys(x.Addr, out)
+				}
+			case *ssa.Alloc:
+				if x.Heap {
+					addrKeys(x, out)
+				}
+			}
+			if c, ok := in.(ssa.CallInstruction); ok {
+				dummy := map[string]bool{}
+				for _, g := range P.staticCallees(c.Common(), dummy) {
+					for k := range P.freshKeys(g) {
+						out[k] = true
+					}
+				}
+			}
+		}
+	}
+	return out
 }
